@@ -921,6 +921,13 @@ def check(pid, tier, seed):
                 # surfaces as a per-case panic, to obtain the concrete input.
                 crash = {"kind": "panic", "what": "the harness process running the real engine died (exit status %s) during `%s`" % (rc, cmd),
                          "case": "rvharness %s %s" % (cmd, " ".join(args))}
+                fm = re.search(r"FAULT-CASE: (.*)", hout or "")
+                if fm:
+                    # the fault handler of the guard-page runs names the case: a read outside the haystack
+                    crash = {"kind": "panic", "case": fm.group(1)[:2000],
+                             "what": "memory fault (SIGSEGV/SIGBUS) while searching a haystack that ends (or starts) at an inaccessible page: the engine read outside the haystack"}
+                    violations.append(crash)
+                    continue
                 okp, pout, cbin = cargo_build(plan.get("fset", "default"), profile="checked", toolchain=plan.get("toolchain"))
                 rc2, hout2, rep2 = run_harness(cbin, cmd, outdir + "-checked", args) if okp else (1, "", None)
                 if rep2 is not None and rep2["violations"]:
